@@ -355,7 +355,7 @@ def work(task):
 def run(ctx):
     quick = ctx.tier == "quick"
     # (L, all linearisation answers?, full 31-letter alphabet?)
-    plans = [(4, False, False), (3, False, True), (3, True, True)] if quick else [(5, False, False), (4, False, True), (4, True, True)]
+    plans = [(4, False, False), (3, False, True), (3, True, False), (2, True, True)] if quick else [(5, False, False), (4, False, True), (4, True, False), (3, True, True)]
     expected = 0
     for L, mode, full in plans:
         alpha = LETTERS if full else BASE
